@@ -18,8 +18,12 @@ REPO = os.environ.get('VERIF_REPO', '/repo')
 BUILD_ROOT = os.environ.get('VERIF_BUILD', os.path.join(VERIF, 'build'))
 JOBS = int(os.environ.get('VERIF_JOBS', '16'))
 CXX = 'clang++'
-SAN_FLAGS = ['-fsanitize=address,undefined', '-fno-sanitize=alignment,nonnull-attribute',
-             '-fno-sanitize-recover=undefined']
+# UBSan's nonnull-attribute check is on: a null pointer handed to memcpy/memmove/memcmp is undefined behaviour that
+# optimising compilers act on (known finding KF-3). The call sites of KF-3 are excluded at compile time through
+# findings/ubsan_known_sites.txt so that the search goes on behind them; the KF-3 witness uses SAN_FLAGS_NOIGNORE.
+UBSAN_IGNORE = os.path.join(VERIF, 'findings', 'ubsan_known_sites.txt')
+SAN_FLAGS_NOIGNORE = ['-fsanitize=address,undefined', '-fno-sanitize=alignment', '-fno-sanitize-recover=undefined']
+SAN_FLAGS = SAN_FLAGS_NOIGNORE + ['-fsanitize-ignorelist=' + UBSAN_IGNORE]
 BASE_FLAGS = ['-std=gnu++17', '-O1', '-g', '-fno-omit-frame-pointer']
 RUN_ENV = dict(os.environ, ASAN_OPTIONS='detect_leaks=0:abort_on_error=0:handle_abort=1:allocator_may_return_null=1',
                UBSAN_OPTIONS='print_stacktrace=1:halt_on_error=1')
@@ -66,9 +70,11 @@ class Builder:
 
     def __init__(self, extra_flags=(), tag='asan', harness='history'):
         self.key = repo_key() + '-' + harness_key(harness) + '-' + tag
+        if tag in ('asan', 'fuzz'):
+            self.key += '-' + hashlib.sha256(open(UBSAN_IGNORE, 'rb').read()).hexdigest()[:6]
         self.dir = os.path.join(BUILD_ROOT, self.key)
         os.makedirs(self.dir, exist_ok=True)
-        self.flags = BASE_FLAGS + (SAN_FLAGS if tag == 'asan' else list(extra_flags)) + \
+        self.flags = BASE_FLAGS + (SAN_FLAGS if tag == 'asan' else SAN_FLAGS_NOIGNORE if tag == 'asan-noignore' else list(extra_flags)) + \
             ['-I' + os.path.join(VERIF, 'harness'), '-I' + os.path.join(REPO, 'src')]
         self.tag = tag
         self.lock = open(os.path.join(BUILD_ROOT, '.lock'), 'w')
@@ -112,7 +118,7 @@ class Builder:
         eng = self.engine_obj(engine)
         tmp = binp + '.tmp%d' % os.getpid()
         extra = ['-lrapidcheck'] if engine == 'engine_rc' else []
-        sanl = SAN_FLAGS if self.tag == 'asan' else []
+        sanl = SAN_FLAGS if self.tag == 'asan' else SAN_FLAGS_NOIGNORE if self.tag == 'asan-noignore' else []
         if engine == 'engine_fuzz':
             sanl = ['-fsanitize=fuzzer,address,undefined'] + SAN_FLAGS[1:]
         r = sh([CXX] + BASE_FLAGS + sanl + [eng, obj] + extra + ['-o', tmp])
@@ -249,7 +255,8 @@ def run_shard(binp, prop, cases, maxlen, seed, outdir, name, guards=0, isolate=F
 FUZZ_PROPS = {'C01', 'C02', 'C06', 'C07', 'C10', 'C16', 'C18'}
 FUZZ_CONFIGS = ['u8_Vu8_u32a4__A0000', 'u8_Vu16_u8_VB5__A0000', 'u8_VTracked_u16_FTracked__A0000', 'Fu8_u8a4_Fu8__A0000',
                 'u32_sza8_Vfloata8_sza8_Vfloata16__A0000', 'u8_Vu8_Tracked__A0000', 'FTrackedMO_TrackedMO__A0000', 'u16_Vu8_Fdoublea16__A0000']
-FUZZ_FLAGS = ['-fsanitize=fuzzer-no-link,address,undefined', '-fno-sanitize=alignment,nonnull-attribute', '-fno-sanitize-recover=undefined']
+FUZZ_FLAGS = ['-fsanitize=fuzzer-no-link,address,undefined', '-fno-sanitize=alignment', '-fno-sanitize-recover=undefined',
+              '-fsanitize-ignorelist=' + UBSAN_IGNORE]
 
 
 def build_fuzz(cfgs):
@@ -372,7 +379,7 @@ def save_violation_replay(pid, src_path):
 ASSUMPTIONS = [
     'preconditions D1-D15 of DESIGN.md section 0.1 delimit the generated input domain (emplace_back only below capacity and within the byte budget, count argument equals the range length, valid iterators, ...)',
     'the checking allocator, the instrumented value types and the model in /verif/harness are correct',
-    'clang++ 14 -O1 with AddressSanitizer and UndefinedBehaviorSanitizer (alignment and nonnull-attribute checks off: the library stores objects at alignment 1 by design), library asserts enabled',
+    'clang++ 14 -O1 with AddressSanitizer and UndefinedBehaviorSanitizer (alignment check off: the library stores objects at alignment 1 by design; nonnull-attribute check on except at the call sites of known finding KF-3), library asserts enabled',
     'exploration only: absence of violations on the generated cases is not a proof',
 ]
 
